@@ -13,7 +13,8 @@ FLAGSETS = {'G': G.G, 'G|K': G.G | G.K, 'G|O': G.G | G.O, 'G|D': G.G | G.D, 'G|S
 
 def run(chk, tier, seed):
     pats = [P.render(p) for p in globrun.small_patterns()]
-    pats += ['$ROOT/*', '$ROOT/d/**', '$ROOT/**/a', '$ROOT/', 'd/../a', 'd//x', './d/', '../root/*', '{a,d/*}', 'a|d/*', '*|!a', '{d,ld}/', 'd/s/../x', '.', '..', './', 'd/./x', '$ROOT/d/../f']
+    pats += ['$ROOT/*', '$ROOT/d/**', '$ROOT/**/a', '$ROOT/', 'd/../a', 'd//x', './d/', '../root/*', '{a,d/*}', 'a|d/*', '*|!a', '{d,ld}/', 'd/s/../x', '.', '..', './', 'd/./x', '$ROOT/d/../f',
+             'd/*{,/}', '**/|**', '{d/*,d/*/}', '*{,/}', '*/|*', 'd/s/*/|d/s/*']          # one call visiting a directory with and without the directories-only filter
     fsets = ['G', 'G|K', 'G|O', 'G|SD', 'G|B|S', 'G|K|O'] if tier == 'quick' else list(FLAGSETS)
     specs = {k: trees.NAMED[k] for k in (('links', 'basic') if tier == 'quick' else trees.NAMED)}
     rnd = random.Random(seed * 13 + 6)
